@@ -53,6 +53,17 @@ def cases(rng, tier):
     for gl in ([["E", "D"], ["K", "R"], ["D", "E"]], [["K"], ["k"]], [["A", "G"], ["A", "G"], ["S"]], [["E", "D"], ["E", "D"]]):
         for w in (1, 3):
             yield Case(["q linComp %s %d %s" % ("MKDEEDRSAGSTQKLLWYEK", w, gtok(gl))], {"kind": "repeated-groups"})
+    # LARGE groups (12-19 of the 20 letters, and all 20) on short and medium sequences that repeat residues outside the group
+    for _ in range(40 if tier == "quick" else 400):
+        L = rng.choice([3, 4, 5, 6, 8, 12, 16, 25, 40, 60, 83, 84, 120])
+        letters = rng.sample(gen.AAS, rng.randint(2, 6))
+        sq = "".join(rng.choice(letters) for _ in range(L))
+        out_ = rng.sample(letters, rng.randint(1, min(3, len(letters))))        # residue types of the sequence left OUT of the group
+        big = [a for a in gen.AAS if a not in out_]
+        rng.shuffle(big)
+        big = big[:max(12, len(big) - rng.randint(0, 5))]
+        groups = [big] + ([rng.sample(gen.AAS, rng.randint(13, 20))] if rng.random() < 0.5 else [])
+        yield Case(["q linComp %s %d %s" % (sq, rng.randint(1, L), gtok(groups))], {"kind": "large-groups"})
     # the same query several times in a row on one object
     for c in gen.repeated_call_cases(rng, 8 if tier == "quick" else 60, ['linNCPR 3', 'linComp 3 -'], gen.CLAMP_BAND[:8] if False else ()):
         yield c
